@@ -186,7 +186,7 @@ func (i *interpreter) nm(k types.BasicKind, t string) string {
 		return n
 	}
 	name := p.fresh("t")
-	p.sv.send("(define-fun " + name + " () " + sortOfKind(k) + " " + t + ")")
+	p.emit("(define-fun " + name + " () " + sortOfKind(k) + " " + t + ")")
 	if p.defs == nil {
 		p.defs = map[string]string{}
 	}
